@@ -19,6 +19,7 @@ package main
 
 import (
 	"context"
+	"errors"
 	"fmt"
 	"io"
 	"log/slog"
@@ -40,6 +41,10 @@ import (
 const c19Finding = "C19-lease-not-rechecked-before-append"
 
 var errC19Inconclusive = fmt.Errorf("vf c19: inconclusive")
+
+// errC19Spontaneous: one of this broker's etcd leases ran out although the harness did not
+// revoke it (process starved for longer than the TTL). The case says nothing then.
+var errC19Spontaneous = fmt.Errorf("vf c19: a lease of the broker expired without the harness revoking it")
 
 var c19Quiet = slog.New(slog.NewTextHandler(io.Discard, nil))
 
@@ -102,6 +107,31 @@ type c19World struct {
 	midHook  func() // runs once inside the first segment upload of the current request
 	hookErr  error
 	trace    []string
+
+	selfLeases map[clientv3.LeaseID]bool // leases seen attached to this broker's keys
+	revoked    map[clientv3.LeaseID]bool // leases the harness revoked on purpose
+}
+
+// spontaneous reports whether a lease of this broker disappeared without the harness' doing.
+func (w *c19World) spontaneous() bool {
+	ctx, cancel := context.WithTimeout(context.Background(), 30*time.Second)
+	defer cancel()
+	resp, err := w.env.admin.Leases(ctx)
+	if err != nil {
+		return false
+	}
+	live := map[clientv3.LeaseID]bool{}
+	for _, l := range resp.Leases {
+		live[l.ID] = true
+	}
+	w.mu.Lock()
+	defer w.mu.Unlock()
+	for id := range w.selfLeases {
+		if !live[id] && !w.revoked[id] {
+			return true
+		}
+	}
+	return false
 }
 
 func (w *c19World) leaseKeys() (map[string]string, map[string]clientv3.LeaseID, error) {
@@ -117,6 +147,11 @@ func (w *c19World) leaseKeys() (map[string]string, map[string]clientv3.LeaseID, 
 		k := strings.TrimPrefix(string(kv.Key), metadata.PartitionLeasePrefix()+"/")
 		vals[k] = string(kv.Value)
 		leases[k] = clientv3.LeaseID(kv.Lease)
+		if string(kv.Value) == "1" && kv.Lease != 0 {
+			w.mu.Lock()
+			w.selfLeases[clientv3.LeaseID(kv.Lease)] = true
+			w.mu.Unlock()
+		}
 	}
 	return vals, leases, nil
 }
@@ -141,7 +176,7 @@ func (e *c19Env) newWorld(ttl2 bool) (*c19World, error) {
 	if _, err := e.admin.Delete(ctx, "/kafscale/", clientv3.WithPrefix()); err != nil {
 		return nil, fmt.Errorf("%w: cleanup: %v", errC19Inconclusive, err)
 	}
-	w := &c19World{env: e, obj: vfkit.NewObjStore()}
+	w := &c19World{env: e, obj: vfkit.NewObjStore(), selfLeases: map[clientv3.LeaseID]bool{}, revoked: map[clientv3.LeaseID]bool{}}
 	snapshot := metadata.ClusterMetadata{Brokers: []protocol.MetadataBroker{{NodeID: 1, Host: "localhost", Port: 19092}}, ControllerID: 1}
 	seed := metadata.NewInMemoryStore(snapshot)
 	for name, n := range map[string]int32{"t1": 3, "t2": 2} {
@@ -227,6 +262,9 @@ func (w *c19World) expireSelf() (bool, error) {
 		return false, nil
 	}
 	sort.Strings(mine)
+	w.mu.Lock()
+	w.revoked[leases[mine[0]]] = true
+	w.mu.Unlock()
 	ctx, cancel := context.WithTimeout(context.Background(), 30*time.Second)
 	_, err = w.env.admin.Revoke(ctx, leases[mine[0]])
 	cancel()
@@ -358,6 +396,9 @@ func (w *c19World) produce(parts []c19Part, acks int16, midExpire bool, foreignT
 			continue
 		}
 		if !u.Owned || u.KeyVal != "1" {
+			if w.spontaneous() {
+				return out, "", errC19Spontaneous
+			}
 			return out, fmt.Sprintf("request %d: segment for %s was appended and uploaded while this broker did not hold the lease (Owns=%v, etcd key=%q); response code for it: %d; trace=%v",
 				reqNo, u.Part, u.Owned, u.KeyVal, codes[u.Part], w.trace), nil
 		}
@@ -379,6 +420,9 @@ func (w *c19World) produce(parts []c19Part, acks int16, midExpire bool, foreignT
 		if acks != 0 && r.Code == 0 && !(midExpire && midDone) {
 			// (c) success: the lease is this broker's (no expiry was injected during this request)
 			if !w.h.leaseManager.Owns(r.Part.Topic, r.Part.P) || after[r.Part.String()] != "1" {
+				if w.spontaneous() {
+					return out, "", errC19Spontaneous
+				}
 				return out, fmt.Sprintf("request %d: success for %s but the broker does not hold its lease (Owns=%v, etcd key=%q); trace=%v",
 					reqNo, r.Part, w.h.leaseManager.Owns(r.Part.Topic, r.Part.P), after[r.Part.String()], w.trace), nil
 			}
@@ -485,6 +529,10 @@ func TestVF_C19_Produce(t *testing.T) {
 				st.Class("session-expiry-during-request")
 			}
 			res, v, err := w.produce(parts, acks, midExpire, foreignTakes)
+			if errors.Is(err, errC19Spontaneous) {
+				st.Class("spontaneous-lease-expiry(case skipped)")
+				rt.Skip("a lease of the broker expired without the harness revoking it")
+			}
 			fail(v, err)
 			hasOK, hasForeign := false, false
 			for _, r := range res {
